@@ -1,2 +1,748 @@
-(* Model for C19 — to be written. Executable definitions only, no proofs. *)
+(* Model for C19 — RPM package identity, digests and signature issuer.
+   Executable definitions only, no proofs.
+
+   Part 1: github.com/jfrog/go-rpm v1.0.1, re-modelled at byte level from its source
+           (lead.go, header.go, index.go, packagefile.go).
+   Part 2: internal/openpgp/packet: packet.Read for signature packets (packet.go, signature.go,
+           signature_v3.go); every other packet type is an oracle [other].
+   Part 3: internal/file: RPMFile (parsers.go), rpmSignatureAttributes, rpmCheckIndex (rpm.go),
+           gpgAlgorithmName (pgp.go), before and after the repairs F23/F24/F25/F32/F36
+           (a [cfg] record selects the variant; [cfg_now] is the code as it is now).
+   Part 4: Rpm.encode — the canonical layout of a package description, used by the theorems. *)
 From WI Require Import Lib.Base Lib.Info.
+Open Scope N_scope.
+
+Definition lenN {A} (l : list A) : N := N.of_nat (length l).
+
+(* l[o : o+n]; callers check the bounds first, so the conversion to nat is never large *)
+Definition slice (o n : N) (l : bytes) : bytes := firstn (N.to_nat n) (skipn (N.to_nat o) l).
+
+(* ================================================================ Part 1: go-rpm *)
+
+(* b := make([]byte, n); k, err := r.Read(b) on a bytes.Reader, followed by the callers'
+   "if err != nil return err; if k != n return ErrBad...": bytes.Reader.Read returns io.EOF when
+   nothing is left — even for n = 0 — and otherwise min(n, remaining) bytes without error. *)
+Definition read_exact (n : N) (rest : bytes) : result (bytes * bytes) :=
+  match rest with
+  | [] => Err "EOF"
+  | _ => if lenN rest <? n then Err "short read"
+         else Ok (firstn (N.to_nat n) rest, skipn (N.to_nat n) rest)
+  end.
+
+Record lead := mklead { l_major : N; l_minor : N }.
+
+Definition rpm_magic : bytes := [237; 171; 238; 219].
+
+(* lead.go:42 ReadPackageLead *)
+Definition read_lead (data : bytes) : result (lead * bytes) :=
+  let* (b, rest) := read_exact 96 data in
+  if negb (bytes_eqb (firstn 4 b) rpm_magic) then Err "RPM file descriptor is invalid"
+  else
+    let major := nth 4 b 0 in
+    if (major <? 3) || (4 <? major) then Err "unsupported RPM package version"
+    else Ok (mklead major (nth 5 b 0), rest).
+
+(* index.go:8 value data types *)
+Inductive value : Type :=
+| VNull                                (* Value == nil                       *)
+| VBytes (b : bytes)                   (* []uint8 (CHAR) and []byte (BIN)    *)
+| VInts (ty : N) (raw : bytes)         (* []int8/16/32/64: the big-endian bytes of the items *)
+| VStrings (l : list bytes).           (* []string (STRING, STRING_ARRAY, I18NSTRING) *)
+
+Record entry := mkentry { e_tag : N; e_type : N; e_off : N; e_cnt : N; e_val : value }.
+Record header := mkheader { h_version : N; h_count : N; h_length : N; h_entries : list entry }.
+
+Definition be32_at (o : nat) (b : bytes) : N := be_to_N (firstn 4 (skipn o b)).
+
+Definition max_header_size : N := 33554432.
+
+(* header.go:130-147: the index loop; an offset at or beyond the store length is an error *)
+Fixpoint parse_index (n : nat) (idx : bytes) (len : N) : result (list entry) :=
+  match n with
+  | O => Ok []
+  | S n' =>
+      let e := mkentry (be32_at 0 idx) (be32_at 4 idx) (be32_at 8 idx) (be32_at 12 idx) VNull in
+      if len <=? e_off e then Err "index is out of range"
+      else let* r := parse_index n' (skipn 16 idx) len in Ok (e :: r)
+  end.
+
+(* bytes of l up to (not including) the first zero byte, or all of l *)
+Fixpoint until_nul (l : bytes) : bytes :=
+  match l with
+  | [] => []
+  | b :: r => if b =? 0 then [] else b :: until_nul r
+  end.
+
+(* header.go:244-258: the string loop.  [o] may have run past the store: then j = 0, the
+   "j == len(store)" test fails (the store is not empty) and store[o:o+j] panics (F36). *)
+Fixpoint extract_strings (store : bytes) (cnt : nat) (o : N) : result (list bytes) :=
+  match cnt with
+  | O => Ok []
+  | S c =>
+      let slen := lenN store in
+      let s := if slen <? o then [] else until_nul (skipn (N.to_nat o) store) in
+      let j := lenN s in
+      if j =? slen then Err "string value is out of range"
+      else if slen <? o then Panic "slice bounds out of range (go-rpm header.go:254)"
+      else let* r := extract_strings store c (o + j + 1) in Ok (s :: r)
+  end.
+
+Definition int_size (ty : N) : N :=
+  if ty =? 3 then 2 else if ty =? 4 then 4 else if ty =? 5 then 8 else 1.
+
+(* header.go:160-267: one index entry's value *)
+Definition extract_value (store : bytes) (ty o cnt : N) : result value :=
+  let slen := lenN store in
+  if ty =? 0 then Ok VNull
+  else if ty <=? 5 then
+    (* make([]T, cnt) first, then "if o+size > len(store) return error" per item *)
+    let sz := int_size ty in
+    if (0 <? cnt) && (slen <? o + cnt * sz) then Err "value is out of range"
+    else let raw := slice o (cnt * sz) store in
+         Ok (if ty =? 1 then VBytes raw else VInts ty raw)
+  else if ty =? 7 then
+    if slen <? o + cnt then Err "[]byte value is out of range" else Ok (VBytes (slice o cnt store))
+  else if (ty =? 6) || (ty =? 8) || (ty =? 9) then
+    if slen <? o + cnt then Err "[]string value is out of range"
+    else let* l := extract_strings store (N.to_nat cnt) o in Ok (VStrings l)
+  else Err "unknown index data type".
+
+Fixpoint extract_all (store : bytes) (es : list entry) : result (list entry) :=
+  match es with
+  | [] => Ok []
+  | e :: r =>
+      let* v := extract_value store (e_type e) (e_off e) (e_cnt e) in
+      let* r' := extract_all store r in
+      Ok (mkentry (e_tag e) (e_type e) (e_off e) (e_cnt e) v :: r')
+  end.
+
+Definition header_magic : bytes := [142; 173; 232].
+
+(* header.go:270-285: skip the padding to a multiple of 8 (after every header) *)
+Definition skip_pad (len : N) (rest : bytes) : result bytes :=
+  if len mod 8 =? 0 then Ok rest
+  else let* (_, r) := read_exact (8 - len mod 8) rest in Ok r.
+
+(* header.go:73 ReadPackageHeader *)
+Definition read_header (data : bytes) : result (header * bytes) :=
+  let* (hd, r1) := read_exact 16 data in
+  if negb (bytes_eqb (firstn 3 hd) header_magic) then Err "invalid RPM header descriptor"
+  else
+    let cnt := be32_at 8 hd in
+    let len := be32_at 12 hd in
+    if max_header_size <? len then Err "RPM header section is incorrect length"
+    else if max_header_size <? cnt * 16 then Err "index count exceeds header size"
+    else
+      let* (idx, r2) := read_exact (16 * cnt) r1 in
+      let* raw := parse_index (N.to_nat cnt) idx len in
+      let* (store, r3) := read_exact len r2 in
+      let* es := extract_all store raw in
+      let* r4 := skip_pad len r3 in
+      Ok (mkheader (nth 3 hd 0) cnt len es, r4).
+
+Record pkgfile := mkpkgfile { p_lead : lead; p_sig : header; p_main : header }.
+
+(* packagefile.go:30 ReadPackageFile *)
+Definition read_package_file (data : bytes) : result pkgfile :=
+  let* (l, r0) := read_lead data in
+  let* (h0, r1) := read_header r0 in
+  let* (h1, _) := read_header r1 in
+  Ok (mkpkgfile l h0 h1).
+
+(* index.go:33 IndexByTag *)
+Fixpoint index_by_tag (tag : N) (es : list entry) : option entry :=
+  match es with
+  | [] => None
+  | e :: r => if e_tag e =? tag then Some e else index_by_tag tag r
+  end.
+
+(* index.go:45 StringByTag: i.Value.([]string) and s[0], unchecked;
+   [checked] = the repository's own accessor rpmString (rpm.go) after the repair of F24 *)
+Definition string_by_tag (checked : bool) (tag : N) (es : list entry) : result bytes :=
+  match index_by_tag tag es with
+  | None => Ok []
+  | Some e =>
+      match e_val e with
+      | VNull => Ok []
+      | VStrings (s :: _) => Ok s
+      | VStrings [] => if checked then Ok [] else Panic "index out of range [0] with length 0 (go-rpm index.go:53)"
+      | _ => if checked then Ok [] else Panic "interface conversion: not []string (go-rpm index.go:51)"
+      end
+  end.
+
+(* index.go:120 BytesByTag / rpmBytes *)
+Definition bytes_by_tag (checked : bool) (tag : N) (es : list entry) : result bytes :=
+  match index_by_tag tag es with
+  | None => Ok []
+  | Some e =>
+      match e_val e with
+      | VNull => Ok []
+      | VBytes b => Ok b
+      | _ => if checked then Ok [] else Panic "interface conversion: not []uint8 (go-rpm index.go:126)"
+      end
+  end.
+
+(* ================================================================ Part 2: packet.Read *)
+
+Definition need (n : nat) (l : bytes) : result (bytes * bytes) :=
+  if Nat.ltb (length l) n then Err "unexpected EOF" else Ok (firstn n l, skipn n l).
+
+(* the first [n] bytes of l, all of l when it is shorter (spanReader: reads beyond fail) *)
+Definition firstn_N (n : N) (l : bytes) : bytes :=
+  if lenN l <=? n then l else firstn (N.to_nat n) l.
+
+(* s2k.go:234 hashToHashIdMapping with crypto.Hash.String() *)
+Definition hash_name (id : N) : option bytes :=
+  if id =? 1 then Some (bs "MD5")
+  else if id =? 2 then Some (bs "SHA-1")
+  else if id =? 3 then Some (bs "RIPEMD-160")
+  else if id =? 8 then Some (bs "SHA-256")
+  else if id =? 9 then Some (bs "SHA-384")
+  else if id =? 10 then Some (bs "SHA-512")
+  else if id =? 11 then Some (bs "SHA-224")
+  else None.
+
+Definition hash_known (id : N) : bool := match hash_name id with Some _ => true | None => false end.
+
+(* packet.go:540 readMPI *)
+Definition read_mpi (l : bytes) : result bytes :=
+  let* (b, r) := need 2 l in
+  let bitlen := nth 0 b 0 * 256 + nth 1 b 0 in
+  let* (_, r') := need (N.to_nat ((bitlen + 7) / 8)) r in
+  Ok r'.
+
+Fixpoint read_mpis (k : nat) (l : bytes) : result unit :=
+  match k with
+  | O => Ok tt
+  | S k' => let* r := read_mpi l in read_mpis k' r
+  end.
+
+(* what rpmSignatureAttributes looks at *)
+Inductive pkt : Type :=
+| PSig4 (sigtype algo hash : N) (issuer : option N)
+| PSig3 (algo hash issuer : N)
+| POther.
+
+Definition sig4_algo_ok (a : N) : bool := (a =? 1) || (a =? 3) || (a =? 17) || (a =? 19) || (a =? 22).
+Definition sig3_algo_ok (a : N) : bool := (a =? 1) || (a =? 3) || (a =? 17).
+(* number of MPIs read after the hash tag (signature.go:157-182); None = panic("unreachable") *)
+Definition sig_mpis (a : N) : option nat :=
+  if (a =? 1) || (a =? 3) then Some 1%nat
+  else if (a =? 17) || (a =? 19) || (a =? 22) then Some 2%nat
+  else None.
+
+(* state threaded through parseSignatureSubpackets *)
+Record sstate := mksstate { ss_created : bool; ss_issuer : option N; ss_embedded : bool }.
+
+(* signature.go:205-233: subpacket length; result (length, bytes after the length octets) *)
+Definition subpacket_length (sp : bytes) : result (N * bytes) :=
+  match sp with
+  | [] => Err "signature subpacket truncated"
+  | b0 :: r =>
+      if b0 <? 192 then Ok (b0, r)
+      else if b0 <? 255 then
+        match r with
+        | b1 :: r' => Ok ((b0 - 192) * 256 + b1 + 192, r')
+        | [] => Err "signature subpacket truncated"
+        end
+      else
+        match r with
+        | b1 :: b2 :: b3 :: b4 :: r' => Ok (be_to_N [b1; b2; b3; b4], r')
+        | _ => Err "signature subpacket truncated"
+        end
+  end.
+
+(* signature.go:86 Signature.parse and :186 parseSignatureSubpackets, :205 parseSignatureSubpacket.
+   Fuel: one unit per call; length of the input suffices (Proofs/Rpm.v). *)
+Fixpoint parse_sig4 (fuel : nat) (content : bytes) : result pkt :=
+  match content with
+  | v :: t :: a :: h :: l1 :: l2 :: rest =>
+      match fuel with
+      | O => Err "fuel"
+      | S f =>
+          if negb (v =? 4) then Err "signature packet version"
+          else if negb (sig4_algo_ok a) then Err "public key algorithm"
+          else if negb (hash_known h) then Err "hash function"
+          else
+            let* (hashed, r1) := need (N.to_nat (l1 * 256 + l2)) rest in
+            let* st1 := parse_subpackets f (mksstate false None false) hashed true in
+            if negb (ss_created st1) then Err "no creation time in signature"
+            else
+              let* (ul, r2) := need 2 r1 in
+              let* (unhashed, r3) := need (N.to_nat (nth 0 ul 0 * 256 + nth 1 ul 0)) r2 in
+              let* st2 := parse_subpackets f st1 unhashed false in
+              let* (_, r4) := need 2 r3 in
+              match sig_mpis a with
+              | None => Panic "unreachable (signature.go:181)"
+              | Some k => let* _ := read_mpis k r4 in Ok (PSig4 t a h (ss_issuer st2))
+              end
+      end
+  | [] => Err "unexpected EOF"
+  | v :: _ => if negb (v =? 4) then Err "signature packet version" else Err "unexpected EOF"
+  end
+with parse_subpackets (fuel : nat) (st : sstate) (sp : bytes) (hashed : bool) : result sstate :=
+  match sp with
+  | [] => Ok st
+  | _ :: _ =>
+      match fuel with
+      | O => Err "fuel"
+      | S f =>
+          let* (len, body) := subpacket_length sp in
+          if lenN body <? len then Err "signature subpacket truncated"
+          else
+            let rest := skipn (N.to_nat len) body in
+            match firstn (N.to_nat len) body with
+            | [] => Err "zero length signature subpacket"
+            | t0 :: payload =>
+                let ty := t0 mod 128 in
+                let critical := 128 <=? t0 in
+                let plen := length payload in
+                let continue (st' : sstate) := parse_subpackets f st' rest hashed in
+                if ty =? 2 then
+                  if negb hashed then Err "signature creation time in non-hashed area"
+                  else if negb (Nat.eqb plen 4) then Err "signature creation time not four bytes"
+                  else continue (mksstate true (ss_issuer st) (ss_embedded st))
+                else if (ty =? 3) || (ty =? 9) then
+                  if negb hashed then continue st
+                  else if negb (Nat.eqb plen 4) then Err "expiration subpacket with bad length"
+                  else continue st
+                else if (ty =? 11) || (ty =? 21) || (ty =? 22) || (ty =? 30) then continue st
+                else if ty =? 16 then
+                  if negb (Nat.eqb plen 8) then Err "issuer subpacket with bad length"
+                  else continue (mksstate (ss_created st) (Some (be_to_N payload)) (ss_embedded st))
+                else if ty =? 25 then
+                  if negb hashed then continue st
+                  else if negb (Nat.eqb plen 1) then Err "primary user id subpacket with bad length"
+                  else continue st
+                else if (ty =? 27) || (ty =? 29) then
+                  if negb hashed then continue st
+                  else if Nat.eqb plen 0 then Err "empty subpacket"
+                  else continue st
+                else if ty =? 32 then
+                  if ss_embedded st then Err "Cannot have multiple embedded signatures"
+                  else
+                    let* e := parse_sig4 f payload in
+                    match e with
+                    | PSig4 et _ _ _ =>
+                        if et =? 25 then continue (mksstate (ss_created st) (ss_issuer st) true)
+                        else Err "cross-signature has unexpected type"
+                    | _ => Err "cross-signature has unexpected type"
+                    end
+                else if critical then Err "unknown critical signature subpacket type"
+                else continue st
+            end
+      end
+  end.
+
+(* signature_v3.go:35 SignatureV3.parse *)
+Definition parse_sig3 (content : bytes) : result pkt :=
+  match content with
+  | v :: r0 =>
+      if (v <? 2) || (3 <? v) then Err "signature packet version"
+      else
+        match r0 with
+        | five :: r1 =>
+            if negb (five =? 5) then Err "invalid hashed material length"
+            else
+              let* (_, r2) := need 5 r1 in
+              let* (kid, r3) := need 8 r2 in
+              let* (ah, r4) := need 2 r3 in
+              let a := nth 0 ah 0 in
+              let h := nth 1 ah 0 in
+              if negb (sig3_algo_ok a) then Err "public key algorithm"
+              else if negb (hash_known h) then Err "hash function"
+              else
+                let* (_, r5) := need 2 r4 in
+                match sig_mpis a with
+                | None => Panic "unreachable (signature_v3.go:98)"
+                | Some k => let* _ := read_mpis k r5 in Ok (PSig3 a h (be_to_N kid))
+                end
+        | [] => Err "unexpected EOF"
+        end
+  | [] => Err "unexpected EOF"
+  end.
+
+(* packet.go:41 readLength + partialLengthReader: the bytes the packet's contents reader can
+   deliver before it fails; reading beyond them is an error in every case *)
+Fixpoint partial_body (fuel : nat) (chunk : N) (r : bytes) : bytes :=
+  if lenN r <=? chunk then r
+  else
+    let here := firstn (N.to_nat chunk) r in
+    match fuel, skipn (N.to_nat chunk) r with
+    | S f, c :: r' =>
+        if c <? 192 then here ++ firstn_N c r'
+        else if c <? 224 then
+          match r' with
+          | d :: r'' => here ++ firstn_N ((c - 192) * 256 + d + 192) r''
+          | [] => here
+          end
+        else if c <? 255 then here ++ partial_body f (2 ^ (c mod 32)) r'
+        else
+          match r' with
+          | b1 :: b2 :: b3 :: b4 :: r'' => here ++ firstn_N (be_to_N [b1; b2; b3; b4]) r''
+          | _ => here
+          end
+    | _, _ => here
+    end.
+
+(* packet.go:201 readHeader: (tag, contents) *)
+Definition read_pkt_header (sig : bytes) : result (N * bytes) :=
+  match sig with
+  | [] => Err "EOF"
+  | b0 :: r =>
+      if b0 <? 128 then Err "tag byte does not have MSB set"
+      else if (b0 / 64) mod 2 =? 0 then
+        (* old format *)
+        let tag := (b0 mod 64) / 4 in
+        let lt := b0 mod 4 in
+        if lt =? 3 then Ok (tag, r)
+        else
+          let* (lb, r') := need (N.to_nat (2 ^ lt)) r in
+          Ok (tag, firstn_N (be_to_N lb) r')
+      else
+        let tag := b0 mod 64 in
+        match r with
+        | [] => Err "unexpected EOF"
+        | c :: r' =>
+            if c <? 192 then Ok (tag, firstn_N c r')
+            else if c <? 224 then
+              match r' with
+              | d :: r'' => Ok (tag, firstn_N ((c - 192) * 256 + d + 192) r'')
+              | [] => Err "unexpected EOF"
+              end
+            else if c <? 255 then Ok (tag, partial_body (length r') (2 ^ (c mod 32)) r')
+            else
+              let* (lb, r'') := need 4 r' in
+              Ok (tag, firstn_N (be_to_N lb) r'')
+        end
+  end.
+
+(* packet types that packet.Read hands to a parser other than the signature parsers (packet.go:347-400) *)
+Definition other_packet_tag (t : N) : bool :=
+  existsb (N.eqb t) [1; 3; 4; 5; 6; 7; 8; 9; 11; 13; 14; 17; 18].
+
+(* packet.go:341 Read.  [other sig]: the outcome of packet.Read on a packet that is not a
+   signature packet (recorded from the running code per case; theorems quantify over it). *)
+Definition packet_read (other : bytes -> result unit) (sig : bytes) : result pkt :=
+  let* (tag, content) := read_pkt_header sig in
+  if tag =? 2 then
+    match content with
+    | [] => Err "EOF"                       (* peekVersion *)
+    | v :: _ => if v <? 4 then parse_sig3 content else parse_sig4 (length content) content
+    end
+  else if other_packet_tag tag then let* _ := other sig in Ok POther
+  else Err "unknown packet type".
+
+(* ================================================================ Part 3: internal/file *)
+
+Record cfg := mkcfg {
+  cfg_keyid16 : bool;    (* F23: "%016X" instead of "%X"                                  *)
+  cfg_checked : bool;    (* F24: checked local accessors instead of go-rpm's              *)
+  cfg_echash : bool;     (* F32: ECDSA/EdDSA shown with their hash                        *)
+  cfg_validate : bool;   (* F25/F36: rpmCheckIndex runs before go-rpm                     *)
+  cfg_noregion : bool    (* F37: digests/signatures reported without a leading region tag *)
+}.
+Definition cfg_original : cfg := mkcfg false false false false false.
+Definition cfg_now : cfg := mkcfg true true true true true.
+
+(* fmt "%X" of a uint64: no leading zeros ("0" for zero) *)
+Fixpoint hex_digits_fuel (fuel : nat) (n : N) (acc : bytes) : bytes :=
+  match fuel with
+  | O => acc
+  | S f => let q := n / 16 in let d := hex_digit true (n mod 16) in
+           if q =? 0 then d :: acc else hex_digits_fuel f q (d :: acc)
+  end.
+Definition fmt_keyid_raw (k : N) : bytes := hex_digits_fuel (S (N.to_nat (N.size k))) k [].
+(* fmt "%016X" of a uint64 *)
+Definition fmt_keyid (k : N) : bytes := hex_of true (N_to_be 8 k).
+Definition fmt_keyid_cfg (c : cfg) (k : N) : bytes := if cfg_keyid16 c then fmt_keyid k else fmt_keyid_raw k.
+
+(* pgp.go:87 gpgAlgorithmName *)
+Definition algo_name (c : cfg) (a h : N) : bytes :=
+  let hn := match hash_name h with Some n => n | None => bs "unknown hash value " ++ dec_of_N h end in
+  if a =? 17 then bs "DSA/" ++ hn
+  else if a =? 19 then (if cfg_echash c then bs "ECDSA/" ++ hn else bs "ECDSA")
+  else if a =? 22 then (if cfg_echash c then bs "EdDSA/" ++ hn else bs "EdDSA")
+  else if (a =? 1) || (a =? 3) then bs "RSA/" ++ hn
+  else bs "unknown".
+
+(* rpm.go:10 rpmSignatureAttributes *)
+Definition sig_attrs (c : cfg) (other : bytes -> result unit) (sig : bytes) : result (list (bytes * bytes)) :=
+  match packet_read other sig with
+  | Err _ => Ok [(bs "Type", bs "unknown or malformed")]
+  | Panic s => Panic s
+  | Ok (PSig4 _ a h i) =>
+      Ok ((bs "Algorithm", algo_name c a h) ::
+          match i with Some k => [(bs "Key id", fmt_keyid_cfg c k)] | None => [] end)
+  | Ok (PSig3 a h k) => Ok [(bs "Algorithm", algo_name c a h); (bs "Key id", fmt_keyid_cfg c k)]
+  | Ok POther => Ok []
+  end.
+
+(* ---- rpm.go rpmCheckIndex (repair of F25/F36): walk both headers before go-rpm does ---- *)
+
+(* rpm.go rpmStringsFit: [cnt] NUL-terminated strings starting at l *)
+Fixpoint strings_fit (cnt : nat) (l : bytes) : bool :=
+  match cnt with
+  | O => true
+  | S c =>
+      let s := until_nul l in
+      if Nat.eqb (length s) (length l) then false        (* bytes.IndexByte(...) < 0 *)
+      else strings_fit c (skipn (S (length s)) l)
+  end.
+
+Definition entry_fits (store : bytes) (ty o cnt : N) : bool :=
+  let slen := lenN store in
+  if slen <? o then false
+  else
+    let avail := slen - o in
+    if (ty =? 1) || (ty =? 2) || (ty =? 7) then cnt <=? avail
+    else if ty =? 3 then cnt <=? avail / 2
+    else if ty =? 4 then cnt <=? avail / 4
+    else if ty =? 5 then cnt <=? avail / 8
+    else if (ty =? 6) || (ty =? 8) || (ty =? 9) then
+      (* "if", not "&&": the count is converted to nat only once it is known to be small *)
+      if cnt <=? avail then strings_fit (N.to_nat cnt) (skipn (N.to_nat o) store) else false
+    else true.
+
+Fixpoint index_fits (n : nat) (idx store : bytes) : bool :=
+  match n with
+  | O => true
+  | S n' => entry_fits store (be32_at 4 idx) (be32_at 8 idx) (be32_at 12 idx) && index_fits n' (skipn 16 idx) store
+  end.
+
+(* one header; None = "return nil" (too short to hold a header intro: go-rpm reports it) *)
+Definition check_header (rest : bytes) : result (option bytes) :=
+  if lenN rest <? 16 then Ok None
+  else
+    let cnt := be32_at 8 rest in
+    let len := be32_at 12 rest in
+    let r1 := skipn 16 rest in
+    if lenN r1 / 16 <? cnt then Err "RPM index exceeds the file"
+    else
+      let idx := firstn (N.to_nat (16 * cnt)) r1 in
+      let r2 := skipn (N.to_nat (16 * cnt)) r1 in
+      if lenN r2 <? len then Err "RPM header store exceeds the file"
+      else
+        let store := firstn (N.to_nat len) r2 in
+        let r3 := skipn (N.to_nat len) r2 in
+        if negb (index_fits (N.to_nat cnt) idx store) then Err "RPM index entry exceeds the header store"
+        else Ok (Some (if len mod 8 =? 0 then r3 else skipn (N.to_nat (8 - len mod 8)) r3)).
+
+Definition check_index (data : bytes) : result unit :=
+  let* o1 := check_header (skipn 96 data) in
+  match o1 with
+  | None => Ok tt
+  | Some r1 => let* _ := check_header r1 in Ok tt
+  end.
+
+(* ---- parsers.go:202 RPMFile ---- *)
+
+Definition opt_attr (name value : bytes) : list (bytes * bytes) :=
+  match value with [] => [] | _ => [(name, value)] end.
+
+(* one signature tag: (found, children) *)
+Definition sig_child (c : cfg) (other : bytes -> result unit) (desc : bytes) (idx0 : list entry) (tag : N)
+  : result (list info) :=
+  let* sig := bytes_by_tag (cfg_checked c) tag idx0 in
+  match sig with
+  | [] => Ok []
+  | _ => let* a := sig_attrs c other sig in Ok [Info desc a []]
+  end.
+
+Definition describe_gen (c : cfg) (other : bytes -> result unit) (data : bytes) : result info :=
+  let* _ := (if cfg_validate c then check_index data else Ok tt) in
+  let* p := read_package_file data in
+  let idx1 := h_entries (p_main p) in
+  let sbt := string_by_tag (cfg_checked c) in
+  let* rv := sbt 1064 idx1 in
+  let desc := match rv with [] => bs "RPM" | _ => bs "RPM (version " ++ rv ++ bs ")" end in
+  let* name := sbt 1000 idx1 in
+  let* version := sbt 1001 idx1 in
+  let* release := sbt 1002 idx1 in
+  let* arch := sbt 1022 idx1 in
+  let attrs := [(bs "Name", name); (bs "Version", version); (bs "Release", release); (bs "Architecture", arch)] in
+  let idx0 := h_entries (p_sig p) in
+  let region := match idx0 with e0 :: _ => e_tag e0 =? 62 | [] => false end in
+  if negb (region || cfg_noregion c) then Ok (Info desc attrs [])
+  else
+    let* md5 := bytes_by_tag (cfg_checked c) 1004 idx0 in
+    let* sha1 := string_by_tag (cfg_checked c) 269 idx0 in
+    let* sha256 := string_by_tag (cfg_checked c) 273 idx0 in
+    let digests := opt_attr (bs "MD5") (hex_of false md5) ++ opt_attr (bs "SHA-1") sha1 ++ opt_attr (bs "SHA-256") sha256 in
+    let* c_dsa := sig_child c other (bs "Signature") idx0 267 in
+    let* c_rsa := sig_child c other (bs "Signature") idx0 268 in
+    let* c_gpg := sig_child c other (bs "Legacy signature (RPM v3)") idx0 1005 in
+    let* c_pgp := sig_child c other (bs "Legacy signature (RPM v3)") idx0 1002 in
+    let children := c_dsa ++ c_rsa ++ c_gpg ++ c_pgp in
+    let none := match children with [] => [(bs "Signature", bs "none")] | _ => [] end in
+    Ok (Info desc (attrs ++ digests ++ none) children).
+
+Definition describe := describe_gen cfg_now.
+
+(* ================================================================ Part 4: the canonical layout *)
+
+Record sigpkt := mksigpkt {
+  sp_v3 : bool; sp_algo : N; sp_hash : N; sp_issuer : N; sp_created : N; sp_sigtype : N;
+  sp_hashtag : bytes; sp_mpis : list bytes }.
+
+Record pkg := mkpkg {
+  k_major : N; k_minor : N;
+  k_name : bytes; k_version : bytes; k_release : bytes; k_arch : bytes;
+  k_rpmversion : option bytes;
+  k_md5 : option bytes; k_sha1 : option bytes; k_sha256 : option bytes;
+  k_dsa : option sigpkt; k_rsa : option sigpkt; k_gpg : option sigpkt; k_pgp : option sigpkt;
+  k_payload : bytes }.
+
+(* RFC 4880 4.2.2: new-format body length *)
+Definition new_len (n : N) : bytes :=
+  if n <? 192 then [n]
+  else if n <? 8384 then [192 + (n - 192) / 256; (n - 192) mod 256]
+  else 255 :: N_to_be 4 n.
+
+Definition enc_mpi (m : bytes) : bytes := N_to_be 2 (8 * lenN m) ++ m.
+
+Definition sig_body (s : sigpkt) : bytes :=
+  (if sp_v3 s then
+     [3; 5; sp_sigtype s] ++ N_to_be 4 (sp_created s) ++ N_to_be 8 (sp_issuer s) ++ [sp_algo s; sp_hash s]
+   else
+     [4; sp_sigtype s; sp_algo s; sp_hash s] ++ [0; 6; 5; 2] ++ N_to_be 4 (sp_created s)
+       ++ [0; 10; 9; 16] ++ N_to_be 8 (sp_issuer s))
+  ++ sp_hashtag s ++ flat_map enc_mpi (sp_mpis s).
+
+Definition encode_sig (s : sigpkt) : bytes :=
+  let b := sig_body s in 194 :: new_len (lenN b) ++ b.
+
+(* an index entry to be laid out: tag, type, count, bytes in the store *)
+Record item := mkitem { it_tag : N; it_type : N; it_cnt : N; it_data : bytes }.
+
+Definition str_item (tag : N) (s : bytes) : item := mkitem tag 6 1 (s ++ [0]).
+Definition bin_item (tag : N) (b : bytes) : item := mkitem tag 7 (lenN b) b.
+
+(* two's complement of -16*n in 32 bits *)
+Definition region_trailer (tag : N) (n : N) : bytes :=
+  N_to_be 4 tag ++ N_to_be 4 7 ++ N_to_be 4 (4294967296 - 16 * n) ++ N_to_be 4 16.
+
+Fixpoint enc_index (off : N) (its : list item) : bytes :=
+  match its with
+  | [] => []
+  | it :: r => N_to_be 4 (it_tag it) ++ N_to_be 4 (it_type it) ++ N_to_be 4 off ++ N_to_be 4 (it_cnt it)
+               ++ enc_index (off + lenN (it_data it)) r
+  end.
+
+Definition enc_store (its : list item) : bytes := flat_map it_data its.
+
+Definition encode_header (its : list item) : bytes :=
+  header_magic ++ [1; 0; 0; 0; 0] ++ N_to_be 4 (lenN its) ++ N_to_be 4 (lenN (enc_store its))
+  ++ enc_index 0 its ++ enc_store its.
+
+Definition pad_len (n : N) : N := (8 - n mod 8) mod 8.
+
+Definition opt_item {A} (f : A -> item) (o : option A) : list item :=
+  match o with Some a => [f a] | None => [] end.
+
+Definition with_region (tag : N) (its : list item) : list item :=
+  bin_item tag (region_trailer tag (1 + lenN its)) :: its.
+
+Definition sig_items (p : pkg) : list item :=
+  with_region 62
+    (opt_item (fun s => bin_item 267 (encode_sig s)) (k_dsa p)
+     ++ opt_item (fun s => bin_item 268 (encode_sig s)) (k_rsa p)
+     ++ opt_item (str_item 269) (k_sha1 p)
+     ++ opt_item (str_item 273) (k_sha256 p)
+     ++ opt_item (fun s => bin_item 1002 (encode_sig s)) (k_pgp p)
+     ++ opt_item (bin_item 1004) (k_md5 p)
+     ++ opt_item (fun s => bin_item 1005 (encode_sig s)) (k_gpg p)).
+
+Definition main_items (p : pkg) : list item :=
+  with_region 63
+    ([str_item 1000 (k_name p); str_item 1001 (k_version p); str_item 1002 (k_release p); str_item 1022 (k_arch p)]
+     ++ opt_item (str_item 1064) (k_rpmversion p)).
+
+Definition lead_name (p : pkg) : bytes :=
+  firstn 66 (k_name p ++ [45] ++ k_version p ++ [45] ++ k_release p).
+
+Definition encode_lead (p : pkg) : bytes :=
+  rpm_magic ++ [k_major p; k_minor p; 0; 0; 0; 1]
+  ++ lead_name p ++ repeat 0 (66 - length (lead_name p))
+  ++ [0; 1; 0; 5] ++ repeat 0 16.
+
+Definition encode (p : pkg) : bytes :=
+  let sh := encode_header (sig_items p) in
+  encode_lead p ++ sh ++ repeat 0 (N.to_nat (pad_len (lenN (enc_store (sig_items p)))))
+  ++ encode_header (main_items p) ++ k_payload p.
+
+(* ---- what is well formed, what go-rpm must return for it, what must be reported ---- *)
+
+Definition hex_val (c : N) : N :=
+  if (48 <=? c) && (c <=? 57) then c - 48
+  else if (65 <=? c) && (c <=? 70) then c - 55
+  else if (97 <=? c) && (c <=? 102) then c - 87
+  else 0.
+Definition of_hex (l : bytes) : N := fold_left (fun acc c => acc * 16 + hex_val c) l 0.
+
+Definition nonul (s : bytes) : bool := forallb (fun b => negb (b =? 0)) s.
+Definition opt_ok {A} (f : A -> bool) (o : option A) : bool := match o with Some a => f a | None => true end.
+
+Definition sig_ok (s : sigpkt) : bool :=
+  (if sp_v3 s then sig3_algo_ok (sp_algo s) else sig4_algo_ok (sp_algo s))
+  && hash_known (sp_hash s)
+  && (sp_issuer s <? 2 ^ 64) && (sp_created s <? 2 ^ 32)
+  && Nat.eqb (length (sp_hashtag s)) 2
+  && match sig_mpis (sp_algo s) with Some k => Nat.eqb (length (sp_mpis s)) k | None => false end
+  && forallb (fun m => lenN m <? 8192) (sp_mpis s).
+
+Definition pkg_ok (p : pkg) : bool :=
+  ((k_major p =? 3) || (k_major p =? 4))
+  && nonul (k_name p) && nonul (k_version p) && nonul (k_release p) && nonul (k_arch p)
+  && opt_ok nonul (k_rpmversion p) && opt_ok nonul (k_sha1 p) && opt_ok nonul (k_sha256 p)
+  && opt_ok (fun d => negb (Nat.eqb (length d) 0)) (k_md5 p)
+  && opt_ok sig_ok (k_dsa p) && opt_ok sig_ok (k_rsa p) && opt_ok sig_ok (k_gpg p) && opt_ok sig_ok (k_pgp p)
+  && (lenN (enc_store (sig_items p)) <=? max_header_size)
+  && (lenN (enc_store (main_items p)) <=? max_header_size)
+  && (pad_len (lenN (enc_store (main_items p))) <=? lenN (k_payload p)).
+
+(* the typed value go-rpm extracts for an item of the canonical layout *)
+Definition item_value (it : item) : value :=
+  if it_type it =? 7 then VBytes (it_data it) else VStrings [until_nul (it_data it)].
+
+Fixpoint entries_view (off : N) (its : list item) : list entry :=
+  match its with
+  | [] => []
+  | it :: r => mkentry (it_tag it) (it_type it) off (it_cnt it) (item_value it)
+               :: entries_view (off + lenN (it_data it)) r
+  end.
+
+Definition header_view (its : list item) : header :=
+  mkheader 1 (lenN its) (lenN (enc_store its)) (entries_view 0 its).
+
+Definition view (p : pkg) : pkgfile :=
+  mkpkgfile (mklead (k_major p) (k_minor p)) (header_view (sig_items p)) (header_view (main_items p)).
+
+(* the report of a well-formed package, written from the property:
+   identity strings and digests as stored; per signature its public-key algorithm, its hash
+   algorithm (RFC 4880 9.1, 9.4) and the 16 hex digits of its issuer key ID *)
+Definition pk_name (a : N) : bytes :=
+  if a =? 17 then bs "DSA" else if a =? 19 then bs "ECDSA" else if a =? 22 then bs "EdDSA" else bs "RSA".
+Definition hash_label (h : N) : bytes := match hash_name h with Some n => n | None => [] end.
+
+Definition sig_report (s : sigpkt) : list (bytes * bytes) :=
+  [(bs "Algorithm", pk_name (sp_algo s) ++ bs "/" ++ hash_label (sp_hash s));
+   (bs "Key id", fmt_keyid (sp_issuer s))].
+
+Definition stored (o : option bytes) : bytes := match o with Some s => s | None => [] end.
+Definition opt_list {A B} (f : A -> B) (o : option A) : list B := match o with Some a => [f a] | None => [] end.
+
+Definition report_children (p : pkg) : list info :=
+  opt_list (fun s => Info (bs "Signature") (sig_report s) []) (k_dsa p)
+  ++ opt_list (fun s => Info (bs "Signature") (sig_report s) []) (k_rsa p)
+  ++ opt_list (fun s => Info (bs "Legacy signature (RPM v3)") (sig_report s) []) (k_gpg p)
+  ++ opt_list (fun s => Info (bs "Legacy signature (RPM v3)") (sig_report s) []) (k_pgp p).
+
+Definition report (p : pkg) : info :=
+  Info (match stored (k_rpmversion p) with [] => bs "RPM" | v => bs "RPM (version " ++ v ++ bs ")" end)
+       ([(bs "Name", k_name p); (bs "Version", k_version p); (bs "Release", k_release p); (bs "Architecture", k_arch p)]
+        ++ opt_attr (bs "MD5") (hex_of false (stored (k_md5 p)))
+        ++ opt_attr (bs "SHA-1") (stored (k_sha1 p))
+        ++ opt_attr (bs "SHA-256") (stored (k_sha256 p))
+        ++ match report_children p with [] => [(bs "Signature", bs "none")] | _ => [] end)
+       (report_children p).
